@@ -15,6 +15,7 @@
 #include "simcheck.hh"
 #include "simrun.hh"
 #include "celeritas/user/ActionDiagnostic.hh"
+#include "celeritas/user/DetectorSteps.hh"
 #include "celeritas/user/SimpleCalo.hh"
 #include "celeritas/user/StepDiagnostic.hh"
 
@@ -73,6 +74,8 @@ class TestCb final : public StepInterface
     StepSelection union_sel;
     std::vector<Delivered> delivered;
     std::string error;
+    DetectorStepOutput hits_;
+    long copy_calls = 0, copy_empty_calls = 0;
 
     Filters filters() const final { return filt; }
     StepSelection selection() const final { return sel; }
@@ -117,6 +120,64 @@ class TestCb final : public StepInterface
         }
         if (!error.empty())
             return;
+        if (have_det)
+        {
+            // DetectorStepOutput (the hit-processing convenience layer) must
+            // hold exactly the in-detector steps of THIS call, in slot order;
+            // the output object is reused across calls as HitProcessor does
+            copy_steps(&hits_, s.steps);
+            size_t n = 0;
+            for (auto i : range(TrackSlotId{s.steps.size()}))
+            {
+                if (!d.detector[i])
+                    continue;
+                if (n >= hits_.size())
+                {
+                    ++n;
+                    continue;
+                }
+                bool ok = hits_.detector[n] == d.detector[i]
+                          && hits_.track_id[n] == d.track_id[i];
+                if (union_sel.event_id)
+                    ok = ok && hits_.event_id.size() == hits_.size()
+                         && hits_.event_id[n] == d.event_id[i];
+                if (union_sel.track_step_count)
+                    ok = ok && hits_.track_step_count.size() == hits_.size()
+                         && hits_.track_step_count[n] == d.track_step_count[i];
+                if (union_sel.energy_deposition)
+                    ok = ok && hits_.energy_deposition.size() == hits_.size()
+                         && same_bits(hits_.energy_deposition[n].value(),
+                                      d.energy_deposition[i].value());
+                if (union_sel.step_length)
+                    ok = ok && hits_.step_length.size() == hits_.size()
+                         && same_bits(hits_.step_length[n], d.step_length[i]);
+                for (auto sp : {StepPoint::pre, StepPoint::post})
+                {
+                    if (union_sel.points[sp].energy)
+                        ok = ok
+                             && hits_.points[sp].energy.size() == hits_.size()
+                             && same_bits(hits_.points[sp].energy[n].value(),
+                                          d.points[sp].energy[i].value());
+                    if (union_sel.points[sp].time)
+                        ok = ok && hits_.points[sp].time.size() == hits_.size()
+                             && same_bits(hits_.points[sp].time[n],
+                                          d.points[sp].time[i]);
+                }
+                if (!ok)
+                    fail("copy_steps: hit " + std::to_string(n)
+                         + " differs from the state's in-detector step of "
+                           "slot "
+                         + std::to_string(i.get()));
+                ++n;
+            }
+            if (n != hits_.size())
+                fail("copy_steps delivered " + std::to_string(hits_.size())
+                     + " hits for a call with " + std::to_string(n)
+                     + " in-detector steps");
+            ++copy_calls;
+            if (n == 0)
+                ++copy_empty_calls;
+        }
         for (auto i : range(TrackSlotId{s.steps.size()}))
         {
             if (!d.track_id[i])
@@ -544,6 +605,18 @@ Verdict run_case(Choices& c, CaseLog& log)
                     return log.fail(m.str());
                 }
             }
+    }
+    {
+        long cc = 0, ce = 0;
+        for (auto const& cbp : cbs)
+        {
+            cc += cbp->copy_calls;
+            ce += cbp->copy_empty_calls;
+        }
+        log.count("copy_steps_calls", cc);
+        log.count("copy_steps_calls_without_hits", ce);
+        if (ce > 0 && cc > ce)
+            log.label("copy-steps-empty-after-hits");
     }
     log.count("delivered_steps", ndelivered);
     log.count("filtered_out_steps", filtered_out);
